@@ -1,5 +1,6 @@
-(* Witness: which='correlations' without a cached pulse-correlation control matrix (uncorrected branch)
-   differs from the total infidelity for a control matrix with an identity component.           *)
+(* Witness for the PRE-FIX behaviour (before a9e668a): which='correlations' without a cached pulse-correlation
+   control matrix returned the uncorrected value, which differs from the total infidelity for a control matrix
+   with an identity component.  After the fix this input raises CalculationError ([infidelity_pc .. = None]). *)
 From Coq Require Import ZArith Reals List Lra Lia Bool.
 From FF Require Import Base.Ops Inst.RInst Base.RAlg Base.FMat Model.Numeric Model.Decay Model.Cumulant
      Proofs.Trapz Proofs.Decay Proofs.DecayPrefix Proofs.TraceId Proofs.PauliOnb Proofs.InfidPos.
@@ -15,12 +16,12 @@ Proof.
     unfold Btw, cm_pc_sum, a3build, build, a3get, sel, spec_at, Bw, spw, omw; simpl; csimp; field; generalize PI_RGT_0; lra.
 Qed.
 
-Theorem pc_uncached_refuted :
+Theorem pc_uncached_prefix_refuted :
   exists (basis : list MatR) (Bpc : list A3r) (sp : spectrumR) (omega : list R),
     let d := 2%nat in let n := length basis in let Cb := fun k => toF (nthm basis k) in
     basis_herm d n Cb /\ basis_orthonormal d n Cb /\ basis_complete d n Cb /\
     sumn' (length Bpc) (fun g => sumn' (length Bpc) (fun h =>
-       nth 0 (nth h (nth g (infidelity_pc RO d false 1 n 2 Bpc basis [0%nat] sp omega) []) []) 0)) <>
+       nth 0 (nth h (nth g (infidelity_pc_value RO d false 1 n 2 Bpc basis [0%nat] sp omega) []) []) 0)) <>
     nth 0 (infidelity_total RO d 1 n 2 (cm_pc_sum RO 1 n 2 Bpc) basis [0%nat] sp omega) 0.
 Proof.
   exists pauli_basis, [Bw], spw, omw. cbv zeta.
